@@ -180,6 +180,7 @@ def coq_case(L, parts, meta, before, expected):
         'c_prob := %s' % prob, 'c_u := %s' % qcm(before['u']),
         'c_f := %s' % coq_list([qcm(fm) for fm in before['f']]), 'c_tau := %s' % coq_list(taus),
         'c_rin := %s' % coq_bool(bool(sw.coll.right_is_node)), 'c_docoll := %s' % coq_bool(bool(sw.params.do_coll_update)),
+        'c_mass := []', 'c_level0 := true',
     ]
     return '({| %s |}, %s)' % ('; '.join(fields), qcl(expected))
 
@@ -374,7 +375,7 @@ def rk_oracle(ck, cls, rng):
             'c_QA := %s' % qcm(A), 'c_QB := %s' % qcm([[0]]),
             'c_prob := {| p_dim := %d%%nat; p_lam := %s; p_mu := %s; p_c := %s |}' % (dim, qcm([pp['lam']]), qcm(z), qcm([pp['c']])),
             'c_u := %s' % qcm([u0] + [[0] * dim] * M), 'c_f := %s' % coq_list([qcm(z)] * (M + 1)),
-            'c_tau := %s' % coq_list(['None'] * (M + 1)), 'c_rin := true', 'c_docoll := false']
+            'c_tau := %s' % coq_list(['None'] * (M + 1)), 'c_rin := true', 'c_docoll := false', 'c_mass := []', 'c_level0 := true']
         coq = (cls.__name__, '({| %s |}, %s)' % ('; '.join(fields), qcl(sum(un[1:], []))))
     for fl in fails:
         ck.violation('%s: Runge-Kutta sweeper violates its stage form (%s)' % (cls.__name__, fl[0]),
@@ -395,6 +396,10 @@ def mass_oracle(ck, rng):
     class MassProb(ex.ImexDiagProb):
         def apply_mass_matrix(self, u):
             return ex.FracVec([a * b for a, b in zip(mm, u.v)])
+
+        def solve_system(self, rhs, factor, u0, t):       # (mass - factor*lamI) u = rhs + factor*cI*t
+            t, factor = F(t), F(factor)
+            return ex.FracVec([(r + factor * c * t) / (m_ - factor * l) for r, l, c, m_ in zip(rhs.v, self.lamI, self.cI, mm)])
         fix_bc_for_residual = False
     lvl_index = rng.choice([0, 1])
     pp = {'lamI': lam(), 'cI': lam(), 'lamE': lam(), 'muE': lam(), 'cE': lam()}
@@ -420,8 +425,7 @@ def mass_oracle(ck, rng):
     for m in range(1, M + 1):
         for x in range(dim):
             u0x = before['u'][0][x] * (mm[x] if lvl_index == 0 else 1)
-            lhs = un[m][x] - dt * sum(QI[m, j] * fn[j][0][x] for j in range(0, m + 1)) - dt * sum(QE[m, j] * fn[j][1][x] for j in range(0, m))
-            # NB: solve_system of the mass problem here is the plain one (I - a*lamI), the model problem has no mass in the solve
+            lhs = mm[x] * un[m][x] - dt * sum(QI[m, j] * fn[j][0][x] for j in range(0, m + 1)) - dt * sum(QE[m, j] * fn[j][1][x] for j in range(0, m))
             rhs = u0x + dt * sum(Q[m, j] * (fo[j][0][x] + fo[j][1][x]) for j in range(1, M + 1)) \
                 - dt * sum(QI[m, j] * fo[j][0][x] + QE[m, j] * fo[j][1][x] for j in range(0, M + 1)) + (tau[m - 1][x] if tau[m - 1] else 0)
             if lhs != rhs:
@@ -429,6 +433,16 @@ def mass_oracle(ck, rng):
     ck.case(key=('MASS', M, lvl_index, bool(tau[0])), sample=None)
     if bad:
         ck.violation('imex_1st_order_mass violates its matrix form', {'M': M, 'level_index': lvl_index, 'failure': bad}, match={'kind': 'mass-matrix_form'})
+    expected = sum(un[1:], []) + sum((fn[m][0] + fn[m][1] for m in range(1, M + 1)), [])
+    fields = [
+        'c_kind := IMEX', 'c_M := %d%%nat' % M, 'c_dt := %s' % qc(dt), 'c_t0 := %s' % qc(t0),
+        'c_nodes := %s' % qcl([0] + list(sw.coll.nodes)), 'c_Q := %s' % qcm(Q.tolist()), 'c_w := %s' % qcl([0] + list(sw.coll.weights)),
+        'c_QA := %s' % qcm(QI.tolist()), 'c_QB := %s' % qcm(QE.tolist()),
+        'c_prob := {| p_dim := %d%%nat; p_lam := %s; p_mu := %s; p_c := %s |}' % (dim, qcm([pp['lamI'], pp['lamE']]), qcm([[0] * dim, pp['muE']]), qcm([pp['cI'], pp['cE']])),
+        'c_u := %s' % qcm(before['u']), 'c_f := %s' % coq_list([qcm(fm) for fm in before['f']]),
+        'c_tau := %s' % coq_list(['None'] + [('None' if t is None else '(Some %s)' % qcl(t)) for t in tau]),
+        'c_rin := true', 'c_docoll := false', 'c_mass := %s' % qcl(mm), 'c_level0 := %s' % coq_bool(lvl_index == 0)]
+    return '({| %s |}, %s)' % ('; '.join(fields), qcl(expected))
 
 
 def verlet_oracle(ck, rng):
@@ -522,7 +536,7 @@ def run(ck):
     ck.rule = ('seeded cases over (sweeper class, M, node family, quadrature type, preconditioner name(s), sweep index k, tau mode, '
                'end-point mode, table source exact-float-image/injected-rational, dimension); distinct = that tuple; non-trivial = M >= 2 '
                'or tau present (a one-node sweep without tau has no off-diagonal coupling)')
-    ck.check_props(required=['C02_generic_implicit_matrix_form', 'C02_imex_matrix_form', 'C02_explicit_matrix_form', 'C02_multi_implicit_two_stage_form', 'C02_runge_kutta_stage_form',
+    ck.check_props(required=['C02_generic_implicit_matrix_form', 'C02_imex_matrix_form', 'C02_explicit_matrix_form', 'C02_multi_implicit_two_stage_form', 'C02_runge_kutta_stage_form', 'C02_imex_mass_matrix_form',
                              'C02_integrate_is_dtQF', 'C02_end_point_quadrature', 'C02_residual_is_defect'])
     from qmat.qdelta import QDELTA_GENERATORS
     from pySDC.implementations.sweeper_classes.generic_implicit import generic_implicit
@@ -628,10 +642,30 @@ def run(ck):
                     ck.violation('Runge-Kutta model and real sweeper %s differ at stage value #%d' % (name, r),
                                  {'correspondence': 'Model/SweepExec.run_rk vs ' + name, 'class': name}, match={'kind': 'rk-correspondence', 'class': name}, no_input=True)
             ck.obligation('exact correspondence RK model = implementation on %d Runge-Kutta classes' % len(rk_cases), nb == 0)
-    for _ in range(24 if thorough else 8):
+    mass_cases = []
+    for _ in range(40 if thorough else 12):
         try:
-            mass_oracle(ck, rng)
+            c = mass_oracle(ck, rng)
+            if c:
+                mass_cases.append(c)
         except ZeroDivisionError:
             pass
+    if mass_cases:
+        body = ['From Coq Require Import List ZArith QArith Qcanon.', 'From PySDC Require Import Model.Sweep Model.SweepExec.',
+                'Import ListNotations.', 'Definition cases : list (case * list Qc) := [', ';\n'.join(mass_cases), '].',
+                'Eval vm_compute in map check_mass_case cases.']
+        rc, out = ck.coqc(ck.write_gen('MassCases.v', '\n'.join(body) + '\n'), timeout=900)
+        if rc != 0:
+            ck.obligation('mass-sweeper model evaluation', False, out[-800:])
+            ck.violation('generated mass-sweeper cases do not compile/evaluate', {'log': out[-3000:]}, match={'kind': 'gen'}, no_input=True)
+        else:
+            res = parse_coq_value(eval_outputs(out)[0])
+            nb = sum(1 for r in res if r != -1)
+            ck.traces += len(res)
+            if nb:
+                ck.violation('imex_1st_order_mass: model and real sweeper differ on %d of %d cases' % (nb, len(res)),
+                             {'correspondence': 'Model/SweepExec.run_mass vs imex_1st_order_mass', 'first_differing': [r for r in res if r != -1][:5]},
+                             match={'kind': 'mass-correspondence'}, no_input=True)
+            ck.obligation('exact correspondence mass-sweeper model = implementation on %d cases' % len(res), nb == 0)
     for _ in range(12 if thorough else 4):
         verlet_oracle(ck, rng)
